@@ -7,7 +7,7 @@ degree tables (32 + 163 + 199 + 56 = 450 shipped data files):
 
   size         grid.size == table[degree] == len(points) == len(weights), grid.degree == degree
   unit-sphere  | |p_i| - 1 | <= 1e-12 for every point
-  exact        | sum_i w_i Y_lm(p_i) - sqrt(4 pi) delta_l0 | <= 1e-9 for all l <= degree, -l <= m <= l
+  exact        | sum_i w_i Y_lm(p_i) - sqrt(4 pi) delta_l0 | <= 1e-10 for all l <= degree, -l <= m <= l
                (l = 0 is the statement that the weights sum to 4 pi)
 
 Oracle: own fully normalised associated-Legendre three-term recursion in l at fixed m (float64, violations are
@@ -16,7 +16,8 @@ re-evaluated in longdouble before they are reported); it never touches grid.util
 sum_m Y_lm^2 = (2l+1)/(4 pi) up to the largest shipped degree and (c) on a Gauss-Legendre x trapezoid product rule
 built with numpy.polynomial (exact to a chosen degree), which also measures the noise floor of the oracle (1e-13).
 
-quick   : every file to l <= min(degree, 40), full degree for files with <= 2000 points
+quick   : every file to l <= min(degree, 40), full degree for the 302 files with <= 16000 points (all Lebedev and Ahrens-Beylkin
+          files, spherical designs to degree 177, max-det to degree 125)
 thorough: every file to its full degree (1.3e11 Legendre values, spread over up to 16 processes)
 """
 import os
@@ -38,10 +39,11 @@ from rtc.common import Collector, rng  # noqa: E402
 METHODS = ("lebedev", "spherical", "maxdet", "ahrens_beylkin")
 TABLE_NAMES = {"lebedev": "LEBEDEV", "spherical": "SPHERICAL", "maxdet": "MAX_DET", "ahrens_beylkin": "AHRENS_BEYLKIN"}
 SHIPPED = {"lebedev": 32, "spherical": 163, "maxdet": 199, "ahrens_beylkin": 56}      # numbers of the property statement
-TOL_EXACT = 1e-9
+TOL_EXACT = 1e-10         # shipped data: <= 3.3e-12 (max-det), oracle noise 2e-13; the plan's 1e-9 is implied
 TOL_SPHERE = 1e-12
 QUICK_LCAP = 40
-QUICK_FULL_SIZE = 2000
+QUICK_FULL_SIZE = 16000  # the plan asks for >= 2000; 16000 takes in every Lebedev and Ahrens-Beylkin file and costs ~30 CPU s more
+QUICK_REQUEST_SIZE = 2000
 CHUNK = 8192            # points per block: stays in cache and below the size at which BLAS level-1 routines start threads
 NPROC = 16
 SQRT_4PI = math.sqrt(4.0 * math.pi)
@@ -49,8 +51,8 @@ SQRT_4PI = math.sqrt(4.0 * math.pi)
 # Recorded genuine defects of the shipped data (known findings): sha1 of the arrays the constructor returns today and the
 # shape of the violation.  Only exactly this behaviour gets the ":known-..." suffix.
 KNOWN = {
-    ("ahrens_beylkin", 39): {"slug": "known-shipped-data-weights-sum-0.9632-of-4pi", "first_l": 0},
-    ("ahrens_beylkin", 127): {"slug": "known-shipped-data-exact-to-l104-only", "first_l": 105},
+    ("ahrens_beylkin", 39): {"slug": "known-shipped-data-weights-sum-0.9632-of-4pi", "first_l": 0, "sha1": "14c63b5748c455c1479f6773ada5d7643363fba1"},
+    ("ahrens_beylkin", 127): {"slug": "known-shipped-data-exact-to-l104-only", "first_l": 105, "sha1": "10b1e3a5dfe3e2c244b39d16a085cccbcd906e42"},
 }
 
 
@@ -296,9 +298,11 @@ def judge_file(col, obs):
     if not ok and (method, degree) in KNOWN and not errs:
         k = KNOWN[(method, degree)]
         bad = [ex for ex in obs["exact"].values() if ex["n_bad_l"]]
-        if (len(obs["exact"]) == 1 and len(bad) == 1 and bad[0]["first_bad_l"] == k["first_l"]
-                and is_shipped_data(method, degree, size, next(iter(obs["exact"])))):
-            col.failures[-1]["case_id"] = f"{cid}:{k['slug']}"
+        if (len(obs["exact"]) == 1 and len(bad) == 1 and bad[0]["first_bad_l"] == k["first_l"] and next(iter(obs["exact"])) == k["sha1"]
+                and is_shipped_data(method, degree, size, k["sha1"])):
+            rec = col.last_failure if hasattr(col, "last_failure") else col.failures[-1]
+            if rec is not None:
+                rec["case_id"] = f"{cid}:{k['slug']}"
 
 
 def is_shipped_data(method, degree, size, fp):
@@ -416,7 +420,7 @@ def inventory_contract(col):
 
 def request_contract(col, g, tier, verified):
     """verified: {(method, degree): fingerprint of the grid that passed/was judged by the file contract}."""
-    cap = QUICK_FULL_SIZE if tier == "quick" else 10 ** 9
+    cap = QUICK_REQUEST_SIZE if tier == "quick" else 10 ** 9
 
     def build_and_compare(method, kw, want_deg, want_size, what):
         with warnings.catch_warnings():
@@ -483,8 +487,8 @@ def request_contract(col, g, tier, verified):
 def run(tier, seed, *rest):
     col = Collector("EXHAUSTIVE over the 450 shipped (method, degree) pairs = every key of LEBEDEV/SPHERICAL/MAX_DET/AHRENS_BEYLKIN_DEGREES (32+163+199+56): the real "
                     "AngularGrid constructor (by degree, cache hit, by size, cache off, other spelling of the method) must give size == table[degree] == len(points), "
-                    "| |p|-1 | <= 1e-12 and |sum w Y_lm - sqrt(4pi) delta_l0| <= 1e-9 for ALL real harmonics l <= "
-                    + ("min(degree, 40) (l <= degree for the files with <= 2000 points)" if tier == "quick" else "degree")
+                    "| |p|-1 | <= 1e-12 and |sum w Y_lm - sqrt(4pi) delta_l0| <= 1e-10 for ALL real harmonics l <= "
+                    + (f"min(degree, {QUICK_LCAP}) (l <= degree for the files with <= {QUICK_FULL_SIZE} points)" if tier == "quick" else "degree")
                     + " against an own normalised-Legendre recursion (validated against mpmath to l = 40, the addition theorem and an exact product rule to the "
                     "largest degree; violations re-evaluated in longdouble); every integer degree request 0..max+2 and shipped sizes +-1 plus random sizes map to the "
                     "smallest shipped grid that is large enough; evaluations counts one postcondition per (grid, l, m); distinct = (clause, method, degree)")
